@@ -85,7 +85,7 @@ class Call:
 
 
 class FactBase:
-    def __init__(self, facts_dir):
+    def __init__(self, facts_dir, expected=None):
         self.dir = facts_dir
         self.crates = {}
         self.configs = []
@@ -94,7 +94,7 @@ class FactBase:
             with open(f) as fh:
                 d = json.load(fh)
             per_crate[d["crate"]].append(d)
-        for c in EXPECTED_CRATES:
+        for c in (expected or EXPECTED_CRATES):
             if c not in per_crate:
                 raise CheckerError(f"no facts for crate {c}")
         for c, ds in per_crate.items():
@@ -322,5 +322,5 @@ _FB = {}
 def load(config="default", **kw):
     if config not in _FB:
         d = _extract.extract(config, **kw)
-        _FB[config] = FactBase(d)
+        _FB[config] = FactBase(d, expected=_extract.CONFIGS.get(config, {}).get("crates"))
     return _FB[config]
